@@ -310,8 +310,9 @@ pub fn run(_kind: &str, ctx: &Ctx, out: &mut dyn Write) {
                 for (i, (c, a, cross)) in reqs.iter().enumerate() {
                     nreq += 1;
                     // one request in eight also goes through the stream line handler
-                    // (explicit candidates must be non-empty there: `v` without numbers is None)
-                    let streamable = c.as_ref().map_or(true, |v| !v.is_empty());
+                    // (explicit candidates must be non-empty there: `v` without numbers is None,
+                    // and within 1..n: the stream handler rejects anything else with E3 before the call)
+                    let streamable = c.as_ref().map_or(true, |v| !v.is_empty() && v.iter().all(|&f| f >= 1 && f <= inp.n));
                     if streamable && (i % 8 == 3) {
                         run_atomic_stream(&mut d, c, a, *cross, &mut s);
                     } else {
